@@ -4,8 +4,8 @@
 M  Toc.tla: the space of small spec-conforming TOCs (AddEntry) with the reference semantics as operators; TLC checks the
    internal sanity of the reference on every TOC of the space (tree, identities, link counts, chunk tables, streams) and two
    negative controls.
-R  3-way differential: every TOC TLC enumerates (TocGen, three configs: structure / features of one entry / trailing white
-   space) is materialised as a real blob by harness/metadata/verif_toc.go, opened by memory.NewReader (root module) and
+R  3-way differential: every TOC TLC enumerates (TocGen, five configs: structure / features of one entry / trailing white
+   space / many-chunk files / names with inner and trailing dot elements) is materialised as a real blob by harness/metadata/verif_toc.go, opened by memory.NewReader (root module) and
    db.NewReader (cmd module), the whole metadata.Reader API is walked and recorded;
    TocTrace: each store's record against the reference (which store left the reference - finding text, SPEC-DRIFT guard),
    TocMonitor: StoresAgree on the two records of one blob (the C05 formula; TLC -continue reports every line).
@@ -232,6 +232,8 @@ def check(run):
     tocs += c05_vtocs(run, "Toc_gen_struct.cfg", {"MaxEntries": "4"} if thorough else None)
     tocs += c05_vtocs(run, "Toc_gen_feat.cfg", None)
     tocs += c05_vtocs(run, "Toc_gen_ws.cfg", None)
+    tocs += c05_vtocs(run, "Toc_gen_many.cfg", None)     # files of 3..12 chunks, chunk offsets 40*k and 2100*k (varint key order != numeric order)
+    tocs += c05_vtocs(run, "Toc_gen_spell.cfg", None)    # names with inner / trailing dot elements: a/.  a/zz/..  a/./b  a//b  a/b/../b
     if thorough:
         tocs += c05_vtocs(run, "Toc_gen_struct.cfg", {"EPaths": ALLP, "MaxEntries": "3", "ETypes": '{"dir", "reg", "hardlink"}'})
         tocs += c05_vtocs(run, "Toc_gen_feat.cfg", {"MaxEntries": "3", "ETypes": '{"dir", "reg", "hardlink"}', "Spells": '{"plain", "dot"}',
